@@ -569,8 +569,10 @@ where
     for (ksn, id, t, tomb) in &visible {
         let (live, dead) = store_listing(node2.store.as_ref(), ksn).await?;
         let newer_or_same = live.iter().chain(dead.iter()).any(|e| e.0 == *id && e.1 >= *t);
-        // a purge may legitimately remove a tombstone that was visible
-        let purged_ok = *tomb && purged_possible;
+        // a purge may legitimately remove a tombstone that was visible, including the
+        // tombstone which superseded this mutation
+        let superseded_by_visible_tombstone = visible.iter().any(|(k2, id2, t2, tomb2)| k2 == ksn && id2 == id && *tomb2 && t2 > t);
+        let purged_ok = purged_possible && (*tomb || superseded_by_visible_tombstone);
         if !newer_or_same && !purged_ok {
             out.violate("C07:acknowledged-visible-mutation-lost-by-restart", json!({"keyspace": ksn, "id": id, "stamp": ts_json(*t), "tombstone": tomb, "trace": trace}));
         }
@@ -720,6 +722,9 @@ async fn c18_round(seed: u64, r: u64, k: usize, entry: u64, pre_yield: bool) -> 
     }
     if !out.violations.is_empty() {
         out.replay = Some(json!({"round": r, "k": k, "entry": entry}));
+    }
+    if r % 997 == 5 {
+        out.sample = Some(json!({"keyspace": ksn, "concurrent_first_uses": k, "entry_point_rotation": entry % 4, "states_created": creations, "acknowledged": acked.len()}));
     }
     node.stop();
     out
